@@ -564,14 +564,20 @@ macro_rules! for_matrix {
         $mac!(32; (BUintD8<4>, BIntD8<4>), (BUintD16<2>, BIntD16<2>), (BUintD32<1>, BIntD32<1>));
         $mac!(40; (BUintD8<5>, BIntD8<5>));
         $mac!(48; (BUintD8<6>, BIntD8<6>), (BUintD16<3>, BIntD16<3>));
+        $mac!(56; (BUintD8<7>, BIntD8<7>));
         $mac!(64; (BUintD8<8>, BIntD8<8>), (BUintD16<4>, BIntD16<4>), (BUintD32<2>, BIntD32<2>), (BUint<1>, BInt<1>));
         $mac!(72; (BUintD8<9>, BIntD8<9>));
+        $mac!(88; (BUintD8<11>, BIntD8<11>));
         $mac!(96; (BUintD8<12>, BIntD8<12>), (BUintD16<6>, BIntD16<6>), (BUintD32<3>, BIntD32<3>));
+        $mac!(112; (BUintD16<7>, BIntD16<7>), (BUintD8<14>, BIntD8<14>));
+        $mac!(120; (BUintD8<15>, BIntD8<15>));
         $mac!(128; (BUintD8<16>, BIntD8<16>), (BUintD16<8>, BIntD16<8>), (BUintD32<4>, BIntD32<4>), (BUint<2>, BInt<2>));
         $mac!(136; (BUintD8<17>, BIntD8<17>));
         $mac!(192; (BUintD8<24>, BIntD8<24>), (BUintD16<12>, BIntD16<12>), (BUintD32<6>, BIntD32<6>), (BUint<3>, BInt<3>));
+        $mac!(224; (BUintD32<7>, BIntD32<7>), (BUintD16<14>, BIntD16<14>));
         $mac!(256; (BUintD8<32>, BIntD8<32>), (BUintD16<16>, BIntD16<16>), (BUintD32<8>, BIntD32<8>), (BUint<4>, BInt<4>));
         $mac!(320; (BUintD8<40>, BIntD8<40>), (BUintD16<20>, BIntD16<20>), (BUintD32<10>, BIntD32<10>), (BUint<5>, BInt<5>));
+        $mac!(448; (BUint<7>, BInt<7>), (BUintD32<14>, BIntD32<14>));
         $mac!(512; (BUintD32<16>, BIntD32<16>), (BUint<8>, BInt<8>));
         $mac!(1024; (BUint<16>, BInt<16>));
     };
